@@ -20,7 +20,7 @@ Inductive site :=
 | SElemIncDec       (* a[i]++           incdec.cpp array branch (since c8a1652) *)
 | SMemberStore      (* s.m = v          executors/assignments/member_assignment.cpp:182/:226/:456/:470 *)
 | SMemberCompound   (* s.m op= v *)
-| SMemberIncDec     (* s.m++            incdec.cpp member branch (since c8a1652; the new value of an accepted s.m++ is lost) *)
+| SMemberIncDec     (* s.m++            incdec.cpp member branch (since c8a1652; an accepted s.m++ writes since 51b5af9) *)
 | SWholeConst       (* a = [..], s = t  on a const array / struct *)
 | SWholeMemberConst (* s = t            where struct s has a const member *)
 | SDerefStore       (* *p = v           simple_assignment.cpp:100 check_const_pointer_modification *)
@@ -43,13 +43,37 @@ Inductive site :=
 | SConstRefStore    (* r = v            where r is `const T&` *)
 | SReseatAssign     (* p = ..           simple_assignment.cpp:966 check_const_pointer_reassignment *)
 | SReseatCompound   (* p += n           same path *)
-| SReseatIncDec.    (* p++ --p          incdec.cpp pointer branch: is_pointer_const (since a842ca6) *)
+| SReseatIncDec     (* p++ --p          incdec.cpp pointer branch: is_pointer_const (since a842ca6) *)
+(* ---- derivation chains: handles derived from handles, across call boundaries *)
+| SRefLocalViaLocal (* T& r = h;        h a local reference, referent protected: managers/variables/initialization.cpp
+                                        handle_reference_variable tests the DEREFERENCED target (since 38104c4) *)
+| SRefLocalViaParam (* T& r = h;        h a reference parameter, referent protected: same test (the parameter variable itself
+                                        carries no is_const, so only the dereferenced target can refuse) *)
+| SRefLocalCRef     (* T& r = h;        h is `const T&`, referent itself not protected: not tested *)
+| SRefParamViaLocal (* f(h), T& param   h a local `const T&`: call_impl.cpp tests the NAMED variable's is_const (since a242434) *)
+| SRefParamViaParam (* f(h), T& param   h a `const T&` PARAMETER: parameter references are created without is_const: not tested *)
+| SRefMemberConst   (* r.m = v          m a const member, r a reference to the struct: structs/assignment.cpp *)
+| SRefStructRead    (* r.m = v          r refers to a const struct and r.m has been read before: the member variable `r.m`
+                                        created by the read inherited is_const *)
+| SRefStructFresh   (* r.m = v          r refers to a const struct, nothing read through r yet: not tested *)
+| SPtcParamStore    (* *p = v ..        p a `const T*` PARAMETER: the parser records no pointee const for parameters
+                                        (type_utility_parser.cpp parseType leaves is_const false for pointer types) *)
+| SPtrCopyArgParam  (* g(p), T* param   p a `const T*` parameter *)
+| SAliasOwnConst    (* a[i] = v, a[i]++, a = [..]   a a `const T[n]` array parameter: operations.cpp assign_array_element_safe,
+                                        incdec.cpp array branch *)
+| SAliasParentStore (* a[i] = v / op=   array parameter bound to a const array or to a const array parameter:
+                                        assign_array_element_safe resolves ONE level and tests it *)
+| SAliasParentIncDec (* a[i]++          incdec.cpp array branch tests only the named variable *)
+| SAliasParentWhole (* a = [..]         through an array parameter *)
+| SAliasDeep.       (* any store        the const array / const array parameter is two or more calls up *)
 
 Definition all_sites : list site :=
   [SAssignVar; SCompoundVar; SIncDecVar; SElemStore; SElemCompound; SElemIncDec; SMemberStore; SMemberCompound;
    SMemberIncDec; SWholeConst; SWholeMemberConst; SDerefStore; SDerefIncDec; SDerefExprStore; SDerefMember;
    SArrowStore; SPtrMemberConst; SAddrAssign; SAddrDecl; SAddrSubAssign; SAddrSubDecl; SAddrArg; SPtrCopyAssign;
-   SPtrCopyDecl; SPtrCopyArg; SRefParam; SRefLocal; SConstRefStore; SReseatAssign; SReseatCompound; SReseatIncDec].
+   SPtrCopyDecl; SPtrCopyArg; SRefParam; SRefLocal; SConstRefStore; SReseatAssign; SReseatCompound; SReseatIncDec;
+   SRefLocalViaLocal; SRefLocalViaParam; SRefLocalCRef; SRefParamViaLocal; SRefParamViaParam; SRefMemberConst; SRefStructRead; SRefStructFresh;
+   SPtcParamStore; SPtrCopyArgParam; SAliasOwnConst; SAliasParentStore; SAliasParentIncDec; SAliasParentWhole; SAliasDeep].
 
 Definition site_eqb (a b : site) : bool :=
   match a, b with
@@ -62,7 +86,13 @@ Definition site_eqb (a b : site) : bool :=
   | SAddrSubAssign, SAddrSubAssign | SAddrSubDecl, SAddrSubDecl | SAddrArg, SAddrArg
   | SPtrCopyAssign, SPtrCopyAssign | SPtrCopyDecl, SPtrCopyDecl | SPtrCopyArg, SPtrCopyArg
   | SRefParam, SRefParam | SRefLocal, SRefLocal | SConstRefStore, SConstRefStore
-  | SReseatAssign, SReseatAssign | SReseatCompound, SReseatCompound | SReseatIncDec, SReseatIncDec => true
+  | SReseatAssign, SReseatAssign | SReseatCompound, SReseatCompound | SReseatIncDec, SReseatIncDec
+  | SRefLocalViaLocal, SRefLocalViaLocal | SRefLocalViaParam, SRefLocalViaParam | SRefLocalCRef, SRefLocalCRef
+  | SRefParamViaLocal, SRefParamViaLocal | SRefParamViaParam, SRefParamViaParam | SRefMemberConst, SRefMemberConst
+  | SRefStructRead, SRefStructRead | SRefStructFresh, SRefStructFresh
+  | SPtcParamStore, SPtcParamStore | SPtrCopyArgParam, SPtrCopyArgParam | SAliasOwnConst, SAliasOwnConst
+  | SAliasParentStore, SAliasParentStore | SAliasParentIncDec, SAliasParentIncDec | SAliasParentWhole, SAliasParentWhole
+  | SAliasDeep, SAliasDeep => true
   | _, _ => false
   end.
 
@@ -80,10 +110,12 @@ Definition mech_chk (st : site) : bool :=
   | SAssignVar | SCompoundVar | SElemStore | SElemCompound | SMemberStore | SMemberCompound | SWholeConst
   | SDerefStore | SDerefMember | SAddrAssign | SPtrCopyArg | SReseatAssign | SReseatCompound
   | SIncDecVar | SElemIncDec | SMemberIncDec | SDerefIncDec | SReseatIncDec
-  | SAddrDecl | SRefParam | SRefLocal | SArrowStore => true
+  | SAddrDecl | SRefParam | SRefLocal | SArrowStore
+  | SRefLocalViaLocal | SRefLocalViaParam | SRefParamViaLocal | SRefMemberConst | SRefStructRead | SAliasOwnConst | SAliasParentStore => true
   | _ => false
   end.
-Definition mech_eff (st : site) : bool := match st with SMemberIncDec => false | _ => true end.
+(* every executor writes (until 51b5af9 an accepted `s.m++` lost its result: mech_eff SMemberIncDec was false) *)
+Definition mech_eff (st : site) : bool := true.
 Definition mech : policy := {| chk := mech_chk; eff := mech_eff |}.
 
 (* every test but one *)
@@ -92,9 +124,25 @@ Definition all_but (st : site) : policy := {| chk := fun x => negb (site_eqb x s
 (* ------------------------------------------------------------------ state *)
 Inductive shape := Scalar | Arr | Struct.
 Record obj := { oshape : shape; oconst : bool; omconst : list bool; ovals : list Z }.
-Inductive tgt := TObj (o : nat) | TSlot (o k : nat).      (* pointer to a whole struct / to one integer slot *)
-Record ptr := { ptgt : option tgt; ppc : bool; pcc : bool }.
-Record state := { objs : list obj; ptrs : list ptr }.
+Inductive tgt := TObj (o : nat) | TSlot (o k : nat).      (* a whole struct / array, or one integer slot *)
+(* Handles: pointers, references (`T&`, bound to a bare scalar or struct variable) and array parameters (`T[n] a`: an
+   alias of a whole array; the implementation passes arrays by reference).
+   ppc  declared const: `const T*`, `const T&`, `const T[n]`;   pcc  `T* const` (references and aliases: always);
+   ppar the handle is a parameter of the function the script is in (the rest of the script runs in the callee);
+   pp1  the handle's value was derived from something const one step up (address of a protected object, copy of a
+        const handle, reference bound through a const reference; alias: bound to a const array or const array parameter);
+   ppd  aliases only: something const two or more steps up.
+   pp1 / ppd of pointers and references are GHOST: no test of any policy reads them; they only feed [gbad].
+   pmat references to structs: a member has been READ through this reference before (the implementation then holds a
+        member variable `r.m` that inherited the const of the struct referred to - only then does it refuse `r.m = v`). *)
+Inductive hkind := HPtr | HRef | HAlias.
+Record ptr := { ptgt : option tgt; ppc : bool; pcc : bool; pkind : hkind; ppar : bool; pp1 : bool; ppd : bool; pmat : bool }.
+(* gbad: ghost - some store has been carried out through a handle that is const or derived from something const *)
+Record state := { objs : list obj; ptrs : list ptr; gbad : bool }.
+
+Definition hconst (pt : ptr) : bool := ppc pt || pp1 pt || ppd pt.
+Definition is_ptr (pt : ptr) : bool := match pkind pt with HPtr => true | _ => false end.
+Definition is_alias (pt : ptr) : bool := match pkind pt with HAlias => true | _ => false end.
 
 Definition slot_prot (ob : obj) (k : nat) : bool := oconst ob || nth k (omconst ob) false.
 Definition has_cmember (ob : obj) : bool := existsb (fun b => b) (omconst ob).
@@ -112,15 +160,29 @@ Fixpoint upd_nth {A} (n : nat) (f : A -> A) (l : list A) : list A :=
 Definition set_vals (vs : list Z) (ob : obj) : obj :=
   {| oshape := oshape ob; oconst := oconst ob; omconst := omconst ob; ovals := vs |}.
 Definition write_slot (s : state) (o k : nat) (v : Z) : state :=
-  {| objs := upd_nth o (fun ob => set_vals (upd_nth k (fun _ => v) (ovals ob)) ob) (objs s); ptrs := ptrs s |}.
+  {| objs := upd_nth o (fun ob => set_vals (upd_nth k (fun _ => v) (ovals ob)) ob) (objs s); ptrs := ptrs s; gbad := gbad s |}.
 Definition read_slot (s : state) (o k : nat) : option Z :=
   match nth_error (objs s) o with Some ob => nth_error (ovals ob) k | None => None end.
-Definition set_tgt (t : option tgt) (p : ptr) : ptr := {| ptgt := t; ppc := ppc p; pcc := pcc p |}.
+(* re-seat a pointer; [d] = the new value comes from something const *)
+Definition set_tgt (t : option tgt) (d : bool) (p : ptr) : ptr :=
+  {| ptgt := t; ppc := ppc p; pcc := pcc p; pkind := pkind p; ppar := ppar p; pp1 := d; ppd := false; pmat := pmat p |}.
+Definition mark (b : bool) (s : state) : state := {| objs := objs s; ptrs := ptrs s; gbad := gbad s || b |}.
+Definition add_handle (s : state) (h : ptr) : state := {| objs := objs s; ptrs := ptrs s ++ [h]; gbad := gbad s |}.
+Definition set_ptrs (s : state) (ps : list ptr) : state := {| objs := objs s; ptrs := ps; gbad := gbad s |}.
+Definition set_mat (p : ptr) : ptr :=
+  {| ptgt := ptgt p; ppc := ppc p; pcc := pcc p; pkind := pkind p; ppar := ppar p; pp1 := pp1 p; ppd := ppd p; pmat := true |}.
+Definition mk_ptr (t : option tgt) (pc cc par d : bool) : ptr :=
+  {| ptgt := t; ppc := pc; pcc := cc; pkind := HPtr; ppar := par; pp1 := d; ppd := false; pmat := false |}.
+Definition mk_ref (t : tgt) (rc par d : bool) : ptr :=
+  {| ptgt := Some t; ppc := rc; pcc := true; pkind := HRef; ppar := par; pp1 := d; ppd := false; pmat := false |}.
+Definition mk_alias (t : tgt) (rc d1 dd : bool) : ptr :=
+  {| ptgt := Some t; ppc := rc; pcc := true; pkind := HAlias; ppar := true; pp1 := d1; ppd := dd; pmat := false |}.
 
 (* ------------------------------------------------------------------ operations *)
 Inductive dform := FAssign | FCompound | FIncDec.                 (* =   op=   ++/-- *)
 Inductive pform := PDeref | PDerefInc | PDerefExpr | PDerefMember | PArrow.
 Inductive psrc := PAddr (t : tgt) | PCopy (q : nat).
+Inductive hsrc := HObj (o : nat) | HVia (h : nat).               (* a bare variable / an existing reference or alias *)
 Inductive amode := ADecl | AAssign | AArg.
 
 Inductive op :=
@@ -131,7 +193,14 @@ Inductive op :=
 | OPtrStore (f : pform) (p : nat) (m : nat) (u : Z)  (* *p = u; ( *p)++; *(p+0) = u; ( *p).mm = u; p->mm = u *)
 | ORef (param rc : bool) (o k : nat) (u : Z)         (* bind a [const] T& (parameter or local) to o / o.mk and store through it *)
 | OPtrCall (src : psrc) (u : Z)                      (* f(src) where f(T* q) { *q = u; } *)
-| OPtrMove (f : dform) (p : nat) (d : Z).            (* p = p + d; p += d; p++ / p-- *)
+| OPtrMove (f : dform) (p : nat) (d : Z)             (* p = p + d; p += d; p++ / p-- *)
+(* derivation chains *)
+| OHRef (par rc : bool) (src : hsrc)                 (* [const] T& r = src;   or  f(src) with f([const] T& r) / f([const] T[n] r):
+                                                        the rest of the script is the body of f *)
+| OHStore (f : dform) (h : nat) (m : nat) (u : Z)    (* r = u, r op= u; r.mm = u, r.mm op= u; a[m] = u, a[m] op= u, a[m]++ *)
+| OHWhole (h : nat) (vs : list Z)                    (* a = [..] through an array parameter *)
+| OPtrParam (pc : bool) (src : psrc)                 (* f(src) with f([const] T* p): the rest of the script is the body of f *)
+| OHRead (h : nat).                                  (* println(r.m0, r.m1): the members are read through the reference r *)
 
 Inductive res := Ok (s : state) | Rejected (st : site) | Stuck.
 
@@ -146,6 +215,8 @@ Definition direct_site (sh : shape) (f : dform) : site :=
 Definition pform_site (f : pform) : site :=
   match f with PDeref => SDerefStore | PDerefInc => SDerefIncDec | PDerefExpr => SDerefExprStore
              | PDerefMember => SDerefMember | PArrow => SArrowStore end.
+(* a `const T*` parameter has lost its const in the implementation, whatever the form of the store *)
+Definition pstore_site (f : pform) (pt : ptr) : site := if ppar pt then SPtcParamStore else pform_site f.
 Definition pform_member (f : pform) : bool := match f with PDerefMember | PArrow => true | _ => false end.
 Definition pform_upd (f : pform) : dform := match f with PDerefInc => FIncDec | _ => FAssign end.
 Definition move_site (f : dform) : site :=
@@ -162,6 +233,7 @@ Definition bare_tgt (s : state) (t : tgt) : bool :=
   | TObj _ => true
   | TSlot o _ => match nth_error (objs s) o with Some ob => match oshape ob with Scalar => true | _ => false end | None => false end
   end.
+Definition src_param (s : state) (q : nat) : bool := match nth_error (ptrs s) q with Some pt => ppar pt | None => false end.
 Definition acq_site (s : state) (md : amode) (src : psrc) : site :=
   match src, md with
   | PAddr t, ADecl => if bare_tgt s t then SAddrDecl else SAddrSubDecl
@@ -169,19 +241,25 @@ Definition acq_site (s : state) (md : amode) (src : psrc) : site :=
   | PAddr _, AArg => SAddrArg
   | PCopy _, ADecl => SPtrCopyDecl
   | PCopy _, AAssign => SPtrCopyAssign
-  | PCopy _, AArg => SPtrCopyArg
+  | PCopy q, AArg => if src_param s q then SPtrCopyArgParam else SPtrCopyArg
   end.
-(* the pointer value of a source; None = ill-formed *)
+(* the pointer value of a source; None = ill-formed (a reference is not a pointer: `&r` crashes the implementation) *)
 Definition src_target (s : state) (src : psrc) : option (option tgt) :=
   match src with
   | PAddr t => if valid_tgt s t then Some (Some t) else None
-  | PCopy q => match nth_error (ptrs s) q with Some pt => Some (ptgt pt) | None => None end
+  | PCopy q => match nth_error (ptrs s) q with Some pt => if is_ptr pt then Some (ptgt pt) else None | None => None end
   end.
-(* would the source give write access to something protected? *)
+(* would the source give write access to something protected / is it a pointer to const?  (what the tests read) *)
 Definition src_const (s : state) (src : psrc) : bool :=
   match src with
   | PAddr t => tgt_prot s t
   | PCopy q => match nth_error (ptrs s) q with Some pt => ppc pt | None => false end
+  end.
+(* ghost: does the value come from something const, directly or further up? *)
+Definition src_taint (s : state) (src : psrc) : bool :=
+  match src with
+  | PAddr t => tgt_prot s t
+  | PCopy q => match nth_error (ptrs s) q with Some pt => hconst pt | None => false end
   end.
 (* Some st = refused by the test at st *)
 Definition acq_check (pol : policy) (s : state) (md : amode) (pc : bool) (src : psrc) : option site :=
@@ -197,6 +275,33 @@ Definition store_slot (t : option tgt) (member : bool) (m : nat) : option (nat *
   | Some (TSlot o k), false => Some (o, k)
   | Some (TObj o), true => Some (o, m)
   | _, _ => None
+  end.
+
+(* the referent of a reference / alias bound to the bare variable o *)
+Definition ref_tgt (ob : obj) (o : nat) : tgt := match oshape ob with Scalar => TSlot o 0 | _ => TObj o end.
+Definition tgt_obj (t : tgt) : nat := match t with TObj o => o | TSlot o _ => o end.
+(* the test that refuses `[non-const] T& r = h` / `f(h)`: which one depends on where the reference is created, on what h
+   is, and on why the binding is wrong *)
+Definition via_site (par hpar tprot : bool) : site :=
+  if par then (if hpar then SRefParamViaParam else SRefParamViaLocal)
+  else if tprot then (if hpar then SRefLocalViaParam else SRefLocalViaLocal)
+  else SRefLocalCRef.
+(* the test that refuses a store through an array parameter: its own const, the const of what it was bound to, or further up *)
+Definition alias_site (whole : bool) (f : dform) (pt : ptr) : option site :=
+  if ppc pt then Some SAliasOwnConst
+  else if pp1 pt then Some (if whole then SAliasParentWhole else match f with FIncDec => SAliasParentIncDec | _ => SAliasParentStore end)
+  else if ppd pt then Some SAliasDeep
+  else None.
+
+(* the test that refuses a store through a reference: a member of a const struct is refused by the member's own
+   variable - which only exists, with the struct's const, once the member has been read through this reference;
+   everything else would need the reference's own const, which no executor looks at.  (A store through a reference to
+   a scalar never looks at the referent.) *)
+Definition ref_store_check (t : tgt) (ob : obj) (hp : ptr) : option site :=
+  match t with
+  | TObj _ => if oconst ob then Some (if pmat hp then SRefStructRead else SRefStructFresh)
+              else if ppc hp then Some SConstRefStore else None
+  | TSlot _ _ => if ppc hp then Some SConstRefStore else None
   end.
 
 Definition step (pol : policy) (s : state) (x : op) : res :=
@@ -220,25 +325,26 @@ Definition step (pol : policy) (s : state) (x : op) : res :=
           if negb (Nat.eqb (length vs) (length (ovals ob))) then Stuck
           else if chk pol SWholeConst && oconst ob then Rejected SWholeConst
           else if chk pol SWholeMemberConst && has_cmember ob then Rejected SWholeMemberConst
-          else Ok {| objs := upd_nth o (set_vals vs) (objs s); ptrs := ptrs s |}
+          else Ok {| objs := upd_nth o (set_vals vs) (objs s); ptrs := ptrs s; gbad := gbad s |}
       end
-  | OPtrNew pc cc None => Ok {| objs := objs s; ptrs := ptrs s ++ [ {| ptgt := None; ppc := pc; pcc := cc |} ] |}
+  | OPtrNew pc cc None => Ok (add_handle s (mk_ptr None pc cc false false))
   | OPtrNew pc cc (Some src) =>
       match src_target s src with
       | None => Stuck
       | Some tg =>
           match acq_check pol s ADecl pc src with
           | Some st => Rejected st
-          | None => Ok {| objs := objs s; ptrs := ptrs s ++ [ {| ptgt := tg; ppc := pc; pcc := cc |} ] |}
+          | None => Ok (add_handle s (mk_ptr tg pc cc false (src_taint s src)))
           end
       end
   | OPtrSet p src =>
       match nth_error (ptrs s) p, src_target s src with
       | Some pt, Some tg =>
-          if chk pol SReseatAssign && pcc pt then Rejected SReseatAssign
+          if negb (is_ptr pt) then Stuck
+          else if chk pol SReseatAssign && pcc pt then Rejected SReseatAssign
           else match acq_check pol s AAssign (ppc pt) src with
                | Some st => Rejected st
-               | None => Ok {| objs := objs s; ptrs := upd_nth p (set_tgt tg) (ptrs s) |}
+               | None => Ok (set_ptrs s (upd_nth p (set_tgt tg (src_taint s src)) (ptrs s)))
                end
       | _, _ => Stuck
       end
@@ -246,6 +352,7 @@ Definition step (pol : policy) (s : state) (x : op) : res :=
       match nth_error (ptrs s) p with
       | None => Stuck
       | Some pt =>
+          if negb (is_ptr pt) then Stuck else
           match store_slot (ptgt pt) (pform_member f) m with
           | None => Stuck
           | Some (o, k') =>
@@ -255,10 +362,10 @@ Definition step (pol : policy) (s : state) (x : op) : res :=
                   match nth_error (ovals ob) k' with
                   | None => Stuck
                   | Some old =>
-                      let st := pform_site f in
+                      let st := pstore_site f pt in
                       if chk pol st && ppc pt then Rejected st
                       else if pform_member f && chk pol SPtrMemberConst && nth k' (omconst ob) false then Rejected SPtrMemberConst
-                      else Ok (store pol st s o k' (newval (pform_upd f) old u))
+                      else Ok (mark (hconst pt) (store pol st s o k' (newval (pform_upd f) old u)))
                   end
               end
           end
@@ -273,7 +380,7 @@ Definition step (pol : policy) (s : state) (x : op) : res :=
               let st := if param then SRefParam else SRefLocal in
               if chk pol st && slot_prot ob k && negb rc then Rejected st
               else if chk pol SConstRefStore && rc then Rejected SConstRefStore
-              else Ok (write_slot s o k u)
+              else Ok (mark rc (write_slot s o k u))
           end
       end
   | OPtrCall src u =>
@@ -284,7 +391,7 @@ Definition step (pol : policy) (s : state) (x : op) : res :=
           | Some _ =>
               match acq_check pol s AArg false src with
               | Some st => Rejected st
-              | None => Ok (write_slot s o k u)
+              | None => Ok (mark (src_taint s src) (write_slot s o k u))
               end
           end
       | _ => Stuck
@@ -293,6 +400,7 @@ Definition step (pol : policy) (s : state) (x : op) : res :=
       match nth_error (ptrs s) p with
       | None => Stuck
       | Some pt =>
+          if negb (is_ptr pt) then Stuck else
           match ptgt pt with
           | Some (TSlot o k) =>
               match nth_error (objs s) o with
@@ -303,11 +411,117 @@ Definition step (pol : policy) (s : state) (x : op) : res :=
                   | Arr =>
                       if has_cmember ob || negb ((0 <=? k') && (k' <? Z.of_nat (length (ovals ob)))) then Stuck
                       else if chk pol (move_site f) && pcc pt then Rejected (move_site f)
-                      else Ok {| objs := objs s; ptrs := upd_nth p (set_tgt (Some (TSlot o (Z.to_nat k')))) (ptrs s) |}
+                      else Ok (set_ptrs s (upd_nth p (set_tgt (Some (TSlot o (Z.to_nat k'))) (pp1 pt)) (ptrs s)))
                   | _ => Stuck
                   end
               end
           | _ => Stuck
+          end
+      end
+  | OHRef par rc (HObj o) =>
+      match nth_error (objs s) o with
+      | None => Stuck
+      | Some ob =>
+          match oshape ob with
+          | Arr => (* `T[n]& r = a;` does not parse: arrays are aliased by array parameters only; the binding is never refused *)
+              if negb par then Stuck else Ok (add_handle s (mk_alias (TObj o) rc (oconst ob) false))
+          | _ =>
+              let t := ref_tgt ob o in
+              let st := if par then SRefParam else SRefLocal in
+              if negb (valid_tgt s t) then Stuck
+              else if chk pol st && tgt_prot s t && negb rc then Rejected st
+              else Ok (add_handle s (mk_ref t rc par (tgt_prot s t)))
+          end
+      end
+  | OHRef par rc (HVia h) =>
+      match nth_error (ptrs s) h with
+      | None => Stuck
+      | Some hp =>
+          match pkind hp, ptgt hp with
+          | HAlias, Some t => if negb par then Stuck else Ok (add_handle s (mk_alias t rc (ppc hp) (pp1 hp || ppd hp)))
+          | HRef, Some t =>
+              let st := via_site par (ppar hp) (tgt_prot s t) in
+              if chk pol st && (ppc hp || tgt_prot s t) && negb rc then Rejected st
+              else Ok (add_handle s (mk_ref t rc par (hconst hp || tgt_prot s t)))
+          | _, _ => Stuck
+          end
+      end
+  | OHStore f h m u =>
+      match nth_error (ptrs s) h with
+      | None => Stuck
+      | Some hp =>
+          match pkind hp, ptgt hp with
+          | HRef, Some t =>
+              (* r++ / r.m++ are not implemented for references ("Type range error", "Undefined struct variable") *)
+              match f with FIncDec => Stuck | _ =>
+              let o := tgt_obj t in
+              let k := match t with TSlot _ k0 => k0 | TObj _ => m end in
+              match nth_error (objs s) o with
+              | None => Stuck
+              | Some ob =>
+                  match nth_error (ovals ob) k with
+                  | None => Stuck
+                  | Some old =>
+                      if chk pol SRefMemberConst && nth k (omconst ob) false then Rejected SRefMemberConst
+                      else match ref_store_check t ob hp with
+                           | Some st => if chk pol st then Rejected st else Ok (mark true (write_slot s o k (newval f old u)))
+                           | None => Ok (mark (hconst hp) (write_slot s o k (newval f old u)))
+                           end
+                  end
+              end end
+          | HAlias, Some (TObj o) =>
+              match nth_error (objs s) o with
+              | None => Stuck
+              | Some ob =>
+                  match nth_error (ovals ob) m with
+                  | None => Stuck
+                  | Some old =>
+                      match alias_site false f hp with
+                      | Some st => if chk pol st then Rejected st
+                                   else Ok (mark true (write_slot s o m (newval f old u)))
+                      | None => if chk pol SRefMemberConst && nth m (omconst ob) false then Rejected SRefMemberConst
+                                else Ok (write_slot s o m (newval f old u))
+                      end
+                  end
+              end
+          | _, _ => Stuck
+          end
+      end
+  | OHWhole h vs =>
+      match nth_error (ptrs s) h with
+      | None => Stuck
+      | Some hp =>
+          match pkind hp, ptgt hp with
+          | HAlias, Some (TObj o) =>
+              match nth_error (objs s) o with
+              | None => Stuck
+              | Some ob =>
+                  if negb (Nat.eqb (length vs) (length (ovals ob))) || has_cmember ob then Stuck
+                  else match alias_site true FAssign hp with
+                       | Some st => if chk pol st then Rejected st
+                                    else Ok (mark true {| objs := upd_nth o (set_vals vs) (objs s); ptrs := ptrs s; gbad := gbad s |})
+                       | None => Ok {| objs := upd_nth o (set_vals vs) (objs s); ptrs := ptrs s; gbad := gbad s |}
+                       end
+              end
+          | _, _ => Stuck
+          end
+      end
+  | OHRead h =>
+      match nth_error (ptrs s) h with
+      | None => Stuck
+      | Some hp =>
+          match pkind hp, ptgt hp with
+          | HRef, Some (TObj _) => Ok (set_ptrs s (upd_nth h set_mat (ptrs s)))
+          | _, _ => Stuck
+          end
+      end
+  | OPtrParam pc src =>
+      match src_target s src with
+      | None => Stuck
+      | Some tg =>
+          match acq_check pol s AArg pc src with
+          | Some st => Rejected st
+          | None => Ok (add_handle s (mk_ptr tg pc false true (src_taint s src)))
           end
       end
   end.
@@ -331,12 +545,16 @@ Fixpoint trace (pol : policy) (s : state) (ops : list op) : list state :=
   | x :: r => match step pol s x with Ok s' => s' :: trace pol s' r | _ => [] end
   end.
 
-(* ------------------------------------------------------------------ the pointer discipline, decidable *)
+(* ------------------------------------------------------------------ the handle discipline, decidable *)
+(* a handle that permits writes was not derived from anything const and does not point at anything protected
+   (pointers, references: declared non-const; array parameters: no const anywhere up the chain) *)
+Definition unprot (s : state) (pt : ptr) : bool := match ptgt pt with Some t => negb (tgt_prot s t) | None => true end.
 Definition ptr_ok (s : state) (pt : ptr) : bool :=
-  ppc pt || match ptgt pt with Some t => negb (tgt_prot s t) | None => true end.
+  ppc pt || (if is_alias pt then pp1 pt || ppd pt || unprot s pt else negb (pp1 pt || ppd pt) && unprot s pt).
 Definition inv_b (s : state) : bool := forallb (ptr_ok s) (ptrs s).
 
-(* observations used by the refutations: did a protected slot change / was a const pointer re-seated? *)
+(* observations used by the refutations: did a protected slot change / was a const pointer re-seated / was a store
+   carried out through a const view? *)
 Definition obj_changed (a b : obj) : bool :=
   existsb (fun k => slot_prot a k && negb (match nth_error (ovals a) k, nth_error (ovals b) k with
                                             | Some x, Some y => x =? y | _, _ => false end))
@@ -356,4 +574,4 @@ Definition reseated (s s' : state) : bool :=
   existsb (fun ab => pcc (fst ab) && negb (tgt_eqb (ptgt (fst ab)) (ptgt (snd ab)))) (zip (ptrs s) (ptrs s')).
 Definition breaks (pol : policy) (c : state * list op) : bool :=
   let s' := fst (run pol (fst c) (snd c)) in
-  inv_b (fst c) && (const_changed (fst c) s' || reseated (fst c) s').
+  inv_b (fst c) && negb (gbad (fst c)) && (const_changed (fst c) s' || reseated (fst c) s' || gbad s').
